@@ -89,6 +89,49 @@ def const_value(spec: typing.Any) -> st.SearchStrategy:
     raise ValueError(spec)
 
 
+def _literal(v: typing.Any) -> str:
+    if v[0] == "bool":
+        return "true" if v[1] else "false"
+    if v[0] == "int":
+        return str(v[1]) if v[1] >= 0 else "(-%d)" % -v[1]
+    return "(%d/%d)" % (v[1], v[2])
+
+
+def _fits(spec: typing.Any, v: typing.Any) -> bool:
+    k = spec[0]
+    if k == "bool" or v[0] == "bool":
+        return k == "bool" and v[0] == "bool"
+    if k == "float":
+        return abs(Fraction(v[1], v[2] if v[0] == "frac" else 1)) <= 65504
+    if v[0] != "int":
+        return False
+    w = spec[1]
+    lo, hi = (0, (1 << w) - 1) if k == "uint" else (-(1 << (w - 1)), (1 << (w - 1)) - 1)
+    return lo <= v[1] <= hi
+
+
+def _refer(spec: typing.Any, expr: str, value: typing.Any, earlier: typing.Sequence[typing.Tuple[str, typing.Any]], mode: int) -> typing.Tuple[str, typing.Any]:
+    """Optionally respell a constant's initialiser through constants defined earlier in the same section (identifier lookup
+    is per section: after `---` the same names may be defined anew with other values)."""
+    if not earlier or mode == 0:
+        return expr, value
+    fitting = [(n, v) for n, v in earlier if _fits(spec, v)]
+    numeric = [(n, v) for n, v in earlier if v[0] != "bool"]
+    if mode in (1, 2) and fitting:
+        n, v = fitting[-1] if mode == 1 else fitting[0]
+        return n, v
+    if mode in (3, 4) and numeric and spec[0] != "bool":
+        n, _ = numeric[-1] if mode == 3 else numeric[0]
+        return "%s + %s - %s" % (expr, n, n), value
+    if mode == 5 and spec[0] == "bool":
+        n, v = earlier[-1]
+        return "%s == %s" % (n, _literal(v)), ["bool", True]
+    if mode == 6 and spec[0] == "bool":
+        n, v = earlier[0]
+        return "%s != %s" % (n, _literal(v)), ["bool", False]
+    return expr, value
+
+
 def const_type() -> st.SearchStrategy:
     return st.one_of(
         st.just(["bool"]),
@@ -113,6 +156,7 @@ def section(max_items: int = 8) -> st.SearchStrategy:
     def build(args: typing.Any) -> typing.Any:
         union, header, raw_items, mode, mode_pos = args
         items = []
+        earlier: typing.List[typing.Tuple[str, typing.Any]] = []  # constants of this section defined so far: (name, value)
         fi = ci = 0
         n_fields = 0
         for it in raw_items:
@@ -125,9 +169,23 @@ def section(max_items: int = 8) -> st.SearchStrategy:
                 it["name"] = CONST_POOL[ci % len(CONST_POOL)] + ("" if ci < len(CONST_POOL) else str(ci))
                 ci += 1
                 expr, value = it.pop("ev")
-                it["expr"], it["value"] = expr, value
+                it["expr"], it["value"] = _refer(it["type"], expr, value, earlier, it.pop("ref", 0))
+                earlier.append((it["name"], it["value"]))
             elif it["k"] == "pad" and union:
                 continue  # no padding in unions
+            if it["k"] == "field":
+                # the capacity of a top-level array may be spelled through an earlier constant of this section
+                r = it.pop("ref", 0)
+                caps = [(n, v[1]) for n, v in earlier if v[0] == "int" and 1 <= v[1] <= 300]
+                if r in (1, 2) and caps and it["type"][0] in ("fixed", "var"):
+                    name, cap = caps[r % len(caps)] if r == 2 else caps[-1]
+                    it["type"] = [it["type"][0], it["type"][1], cap]
+                    it["cap_ref"] = name
+            elif it["k"] == "dir":
+                r = it.pop("ref", 0)
+                if r != 0 and earlier and it["text"].startswith("@assert"):
+                    name, v = earlier[-1] if r != 2 else earlier[0]
+                    it["text"] = "@assert %s == %s" % (name, _literal(v))
             items.append(it)
         if union:
             # a union needs at least two variants
@@ -136,14 +194,18 @@ def section(max_items: int = 8) -> st.SearchStrategy:
                 n_fields += 1
         return {"union": union, "header": header, "items": items, "mode": mode, "mode_pos": mode_pos}
 
+    ref = st.sampled_from([0, 0, 0, 1, 1, 2, 2, 3, 4, 5, 6])
+    const_item = st.fixed_dictionaries(dict(_docs(), k=st.just("const"), ref=ref, ev=const_type().flatmap(lambda t: const_value(t).map(lambda ev: (t, ev))))).map(
+        lambda d: dict({x: y for x, y in d.items() if x != "ev"}, type=d["ev"][0], ev=d["ev"][1])
+    )
     item = st.one_of(
-        st.fixed_dictionaries(dict(_docs(), k=st.just("field"), type=ftypes)),
+        st.fixed_dictionaries(dict(_docs(), k=st.just("field"), type=ftypes, ref=ref)),
         st.fixed_dictionaries(dict(_docs(), k=st.just("field"), type=gt.primitive())),
         st.fixed_dictionaries(dict(_docs(), k=st.just("pad"), n=st.integers(1, 64))),
-        st.fixed_dictionaries(dict(_docs(), k=st.just("const"), ev=const_type().flatmap(lambda t: const_value(t).map(lambda ev: (t, ev))))).map(
-            lambda d: dict({x: y for x, y in d.items() if x != "ev"}, type=d["ev"][0], ev=d["ev"][1])
-        ),
-        st.fixed_dictionaries({"k": st.just("dir"), "text": st.sampled_from(["@assert true", "@print 1", "@assert 2 > 1", "@print"])}),
+        const_item,
+        const_item,
+        const_item,
+        st.fixed_dictionaries({"k": st.just("dir"), "ref": ref, "text": st.sampled_from(["@assert true", "@print 1", "@assert 2 > 1", "@print"])}),
         st.fixed_dictionaries({"k": st.just("orphan"), "lines": st.lists(comment_line(), min_size=1, max_size=2)}),
     )
     return st.tuples(
@@ -155,9 +217,37 @@ def section(max_items: int = 8) -> st.SearchStrategy:
     ).map(build)
 
 
+def _link(model: typing.Any, picks: typing.Sequence[int]) -> typing.Any:
+    """Identifier lookup is per section: both sides of `---` define a constant of the same name with *different* values and
+    both sides use theirs (in another constant, an assertion or an array capacity)."""
+    if not model["service"] or picks[0] != 0:
+        return model
+    plain = {"same": None, "after": [], "gap": False}
+    for si, sec in enumerate(model["sections"]):
+        v = 1 + picks[1 + si] % 200
+        if si == 1 and v == 1 + picks[1] % 200:
+            v = v % 200 + 1
+        items = list(sec["items"])
+        p1 = picks[3 + si] % (len(items) + 1)
+        items.insert(p1, dict(plain, k="const", type=["uint", 8, "sat"], name="SHARED", expr=str(v), value=["int", v]))
+        p2 = p1 + 1 + picks[5 + si] % (len(items) - p1)
+        how = picks[7 + si] % 4
+        if how == 0:
+            user = dict(plain, k="const", type=["uint", 16, "sat"], name="SHARED_USE", expr="SHARED", value=["int", v])
+        elif how == 1:
+            user = {"k": "dir", "text": "@assert SHARED == %d" % v}
+        elif how == 2:
+            user = dict(plain, k="field", type=["var", ["uint", 8, "sat"], v], name="shared_arr", cap_ref="SHARED")
+        else:
+            user = dict(plain, k="const", type=["bool"], name="SHARED_EQ", expr="SHARED * 2 == %d" % (2 * v), value=["bool", True])
+        items.insert(p2, user)
+        sec["items"] = items
+    return model
+
+
 def definitions() -> st.SearchStrategy:
-    return st.tuples(st.booleans(), st.booleans(), section(), section(5)).map(
-        lambda t: {"service": t[0], "deprecated": t[1], "sections": [t[2], t[3]] if t[0] else [t[2]]}
+    return st.tuples(st.booleans(), st.booleans(), section(), section(5), st.tuples(st.integers(0, 2), *([st.integers(0, 2**16)] * 8))).map(
+        lambda t: _link({"service": t[0], "deprecated": t[1], "sections": [t[2], t[3]] if t[0] else [t[2]]}, t[4])
     )
 
 
@@ -207,10 +297,17 @@ def section_extent(sec: typing.Any) -> typing.Optional[int]:
     return layout.inner_max(layout.freeze(section_spec(sec))) + 8 * sec["mode"][1]
 
 
-def render_type(spec: typing.Any, refs: typing.Dict[int, str], fmt: typing.Any, rnd: _Lcg) -> str:
+def render_type(spec: typing.Any, refs: typing.Dict[int, str], fmt: typing.Any, rnd: _Lcg, cap_ref: typing.Optional[str] = None) -> str:
     """Field type with formatting freedom inside array brackets and after cast-mode keywords."""
     k = spec[0]
     o = fmt["opt"]
+    if cap_ref is not None and k in ("fixed", "var"):
+        inner = render_type(spec[1], refs, fmt, rnd)
+        if k == "fixed":
+            return "%s%s[%s%s%s]" % (inner, o, o, cap_ref, o)
+        if rnd.next(3) == 1:
+            return "%s%s[%s<%s%s + 1%s]" % (inner, o, o, o, cap_ref, o)
+        return "%s%s[%s<=%s%s%s]" % (inner, o, o, o, cap_ref, o)
     if k == "fixed":
         return "%s%s[%s%d%s]" % (render_type(spec[1], refs, fmt, rnd), o, o, spec[2], o)
     if k == "var":
@@ -282,7 +379,7 @@ def render(model: typing.Any, fmt: typing.Any, tb: TextBuilder) -> str:
                 continue
             if k == "field":
                 tb.emit(it["type"])
-                text = render_type(it["type"], tb.refs, fmt, rnd) + sep + it["name"]
+                text = render_type(it["type"], tb.refs, fmt, rnd, it.get("cap_ref")) + sep + it["name"]
             elif k == "pad":
                 text = "void%d" % it["n"]
             else:
